@@ -201,7 +201,7 @@ where
                             if OSC_TERMINATORS.contains(&accu.as_str()) {
                                 break 'param_loop;
                             } else {
-                                param.push(accu.chars().next().unwrap());
+                                param.push_str(&accu);
                             }
                         }
 
@@ -324,7 +324,7 @@ where
                             if OSC_TERMINATORS.contains(&accu.as_str()) {
                                 break 'param_loop;
                             } else {
-                                param.push(accu.chars().next().unwrap());
+                                param.push_str(&accu);
                             }
                         }
 
